@@ -305,23 +305,68 @@ func c10Ladders(c *Ctx, p *Prog) {
 		return
 	}
 	// builders: functions returning []factor
-	var builders []*ssa.Function
+	// a builder holds the loop itself, or hands constants (base, first exponent, step), the prefix list and a threshold
+	// closure to one shared loop of the package: body is the function with the loop, bind its parameters as called
+	type builder struct {
+		fn, body *ssa.Function
+		bind     map[ssa.Value]ssa.Value
+	}
+	returnsTable := func(fn *ssa.Function) bool {
+		if fn.Signature.Results().Len() != 1 {
+			return false
+		}
+		sl, ok := fn.Signature.Results().At(0).Type().Underlying().(*types.Slice)
+		return ok && types.Identical(sl.Elem(), factorT)
+	}
+	var builders []builder
 	for _, fn := range p.Funcs("benchunit") {
-		if fn.Signature.Params().Len() == 0 && fn.Signature.Results().Len() == 1 {
-			if sl, ok := fn.Signature.Results().At(0).Type().Underlying().(*types.Slice); ok && types.Identical(sl.Elem(), factorT) && len(naturalLoops(fn)) > 0 {
-				// (a function without a loop that returns the table is an accessor, not a builder)
-				builders = append(builders, fn)
+		if fn.Signature.Params().Len() != 0 || !returnsTable(fn) {
+			continue
+		}
+		if len(naturalLoops(fn)) > 0 {
+			// (a function without a loop that returns the table is an accessor, not a builder)
+			builders = append(builders, builder{fn, fn, nil})
+			continue
+		}
+		for _, b := range fn.Blocks {
+			ret, ok := b.Instrs[len(b.Instrs)-1].(*ssa.Return)
+			if !ok {
+				continue
 			}
+			call, ok := retVal(ret, 0).(*ssa.Call)
+			if !ok {
+				continue
+			}
+			h := call.Call.StaticCallee()
+			if h == nil || h.Pkg != fn.Pkg || len(h.Params) == 0 || !returnsTable(h) || len(naturalLoops(h)) == 0 {
+				continue
+			}
+			bind := map[ssa.Value]ssa.Value{}
+			for i, prm := range h.Params {
+				a := call.Call.Args[i]
+				if mc, ok := a.(*ssa.MakeClosure); ok {
+					a = mc.Fn
+				}
+				bind[prm] = a
+			}
+			builders = append(builders, builder{fn, h, bind})
 		}
 	}
 	c.Floor("C10/R1", "threshold-table builders", len(builders), 2)
-	for _, fn := range builders {
+	for _, bl := range builders {
+		fn, body, bind := bl.fn, bl.body, bl.bind
 		site := p.pos(fn.Pos())
 		list := stringListIn(fn)
+		constInt := func(v ssa.Value) (int64, bool) {
+			if b, ok := bind[v]; ok {
+				v = b
+			}
+			return constInt(v)
+		}
 		// start exponent and step: the int phi of the loop
 		var start, step int64 = 0, 0
 		var base int64
-		for _, lp := range naturalLoops(fn) {
+		for _, lp := range naturalLoops(body) {
 			for _, in := range lp.Header.Instrs {
 				phi, ok := in.(*ssa.Phi)
 				if !ok || !isInteger(phi.Type()) || phi.Comment != "exp" {
@@ -344,8 +389,12 @@ func c10Ladders(c *Ctx, p *Prog) {
 				}
 			}
 		}
-		for _, call := range callsIn(fn, "math", "", "Pow") {
-			if k, ok := call.Common().Args[0].(*ssa.Const); ok && k.Value != nil {
+		for _, call := range callsIn(body, "math", "", "Pow") {
+			a0 := call.Common().Args[0]
+			if b, ok := bind[a0]; ok {
+				a0 = b
+			}
+			if k, ok := a0.(*ssa.Const); ok && k.Value != nil {
 				f, _ := constant.Float64Val(k.Value)
 				base = int64(f)
 			}
@@ -366,12 +415,17 @@ func c10Ladders(c *Ctx, p *Prog) {
 		got := map[string]int64{}
 		evalOK := true
 		var powExp ssa.Value
-		for _, call := range callsIn(fn, "math", "", "Pow") {
+		for _, call := range callsIn(body, "math", "", "Pow") {
 			powExp = call.Common().Args[1]
 		}
 		for k, s := range list {
 			env := map[ssa.Value]int64{}
-			for _, lp := range naturalLoops(fn) {
+			for prm, a := range bind {
+				if kk, ok := constInt(a); ok && isInteger(prm.Type()) {
+					env[prm] = kk
+				}
+			}
+			for _, lp := range naturalLoops(body) {
 				for _, in := range lp.Header.Instrs {
 					phi, ok := in.(*ssa.Phi)
 					if !ok || !isInteger(phi.Type()) {
@@ -424,7 +478,7 @@ func c10Ladders(c *Ctx, p *Prog) {
 		c.Check(ok, "C10/R1", key, site, fmt.Sprintf("%s prefixes %q get the exponents %v", ld.name, list, got),
 			fmt.Sprintf("the %s ladder is %q with exponents %v (evaluable: %v); documented: %q from %d step %d, the empty prefix at exponent 0", ld.name, list, got, evalOK, ld.want, ld.start, ld.step))
 		// thresholds: format literals and the fields they reach
-		c10Thresholds(c, p, fn, ld.name)
+		c10Thresholds(c, p, fn, ld.name, body, bind)
 	}
 	// sub-prefix ladder
 	for _, fn := range p.Funcs("benchunit") {
@@ -477,7 +531,7 @@ var (
 	c10SlotDec map[string]string
 )
 
-func c10Thresholds(c *Ctx, p *Prog, fn *ssa.Function, kind string) {
+func c10Thresholds(c *Ctx, p *Prog, fn *ssa.Function, kind string, body *ssa.Function, bind map[ssa.Value]ssa.Value) {
 	// Sprintf literal -> ParseFloat -> field of factor
 	site := p.pos(fn.Pos())
 	type thr struct {
@@ -487,8 +541,47 @@ func c10Thresholds(c *Ctx, p *Prog, fn *ssa.Function, kind string) {
 	}
 	var ths []thr
 	// the slot a parsed threshold is stored in: a field of the factor, or element k of an array field ("thresh[k]")
-	fieldOfResult := func(v ssa.Value) string {
+	var fieldOfResult func(v ssa.Value) string
+	fieldOfResult = func(v ssa.Value) string {
 		field := ""
+		// a result of the threshold closure handed to the shared loop: the slot its call there stores that result in
+		if in, ok := v.(ssa.Instruction); ok && body != fn {
+			for prm, a := range bind {
+				if a != ssa.Value(in.Parent()) {
+					continue
+				}
+				idx := -1
+				for _, b := range in.Parent().Blocks {
+					if ret, ok := b.Instrs[len(b.Instrs)-1].(*ssa.Return); ok {
+						for i, r := range ret.Results {
+							if r == v {
+								if idx >= 0 && idx != i {
+									return ""
+								}
+								idx = i
+							}
+						}
+					}
+				}
+				if idx < 0 {
+					continue
+				}
+				for _, r := range *prm.Referrers() {
+					call, ok := r.(*ssa.Call)
+					if !ok || call.Call.Value != prm {
+						continue
+					}
+					for _, r2 := range *call.Referrers() {
+						if ex, ok := r2.(*ssa.Extract); ok && ex.Index == idx {
+							field = fieldOfResult(ex)
+						}
+					}
+				}
+			}
+			if field != "" {
+				return field
+			}
+		}
 		for _, r := range *v.Referrers() {
 			st, ok := r.(*ssa.Store)
 			if !ok {
@@ -553,30 +646,41 @@ func c10Thresholds(c *Ctx, p *Prog, fn *ssa.Function, kind string) {
 		}
 		return ok
 	}
-	eachInstr(fn, func(_ *ssa.BasicBlock, in ssa.Instruction) {
-		call, ok := in.(*ssa.Call)
-		if !ok {
-			return
+	scan := []*ssa.Function{fn}
+	if body != fn {
+		scan = append(scan, body)
+		for _, prm := range body.Params {
+			if f, ok := bind[prm].(*ssa.Function); ok {
+				scan = append(scan, f)
+			}
 		}
-		switch {
-		case objIs(calleeObj(&call.Call), "strconv", "", "ParseFloat"):
-			sp, ok := call.Call.Args[0].(*ssa.Call)
-			if !ok || !objIs(calleeObj(&sp.Call), "fmt", "", "Sprintf") {
+	}
+	for _, sf := range scan {
+		eachInstr(sf, func(_ *ssa.BasicBlock, in ssa.Instruction) {
+			call, ok := in.(*ssa.Call)
+			if !ok {
 				return
 			}
-			lit, _ := constString(sp.Call.Args[0])
-			field := ""
-			for _, r := range *call.Referrers() {
-				if ex, ok := r.(*ssa.Extract); ok && ex.Index == 0 {
-					field = fieldOfResult(ex)
+			switch {
+			case objIs(calleeObj(&call.Call), "strconv", "", "ParseFloat"):
+				sp, ok := call.Call.Args[0].(*ssa.Call)
+				if !ok || !objIs(calleeObj(&sp.Call), "fmt", "", "Sprintf") {
+					return
 				}
+				lit, _ := constString(sp.Call.Args[0])
+				field := ""
+				for _, r := range *call.Referrers() {
+					if ex, ok := r.(*ssa.Extract); ok && ex.Index == 0 {
+						field = fieldOfResult(ex)
+					}
+				}
+				ths = append(ths, thr{lit, field, sprintfOperand(sp)})
+			case isThresholdParser(call.Call.StaticCallee()):
+				lit, _ := constString(call.Call.Args[0])
+				ths = append(ths, thr{lit, fieldOfResult(call), call.Call.Args[1]})
 			}
-			ths = append(ths, thr{lit, field, sprintfOperand(sp)})
-		case isThresholdParser(call.Call.StaticCallee()):
-			lit, _ := constString(call.Call.Args[0])
-			ths = append(ths, thr{lit, fieldOfResult(call), call.Call.Args[1]})
-		}
-	})
+		})
+	}
 	// the three rounding boundaries and the number of decimals each one selects
 	bounds := []struct {
 		dec  string
